@@ -779,8 +779,22 @@ class KItems(H):
 
 
 class KVals(H):
+    """d.values(): the values in the dict's iteration order - a permutation the code does not control (PERM)"""
+
     def __init__(self, d):
         self.d = d
+
+    def as_lseq(self, eng, p):
+        lo, n, g, v = self.d.st(p)
+        if not z3.is_true(z3.simplify(g(z3.Int("ix_any")))):
+            raise Unsupported("iteration order of a filtered dict")
+        register(p, Univ(1, lambda t: z3.Implies(z3.And(0 <= t, t < n), z3.And(lo <= PERM(t), PERM(t) < lo + n))), False)
+        out = LSeq(n, lambda j: v(PERM(j)))
+        out.loop = out.slice_loop = files_loop
+        return out
+
+    def for_loop(self, eng, p, st):
+        return files_loop(eng, p, st, self.as_lseq(eng, p))
 
 
 class KList(H):
@@ -1019,6 +1033,33 @@ def run_many(funcs, timeout):
                         "a shorter piece makes the native thrift reader start mid-struct)")
         return [(p, Custom(FMDv(t.h.k, raw=True)))]
 
+    def h_map(eng, p, args, kw, node):
+        """map(f, xs) for a function under a handler: [f(x) for x in xs], evaluated for the member at an arbitrary position"""
+        fn, coll = args[0], args[1] if len(args) == 2 else None
+        name = fn.tag[5:] if isinstance(fn, Opaque) and isinstance(fn.tag, str) and fn.tag.startswith("func:") else None
+        if coll is not None and isinstance(coll, Custom) and hasattr(coll.h, "as_lseq"):
+            coll = Custom(coll.h.as_lseq(eng, p))
+        if name not in handlers or not (isinstance(coll, Custom) and isinstance(coll.h, LSeq)):
+            raise Unsupported("map over " + type(coll).__name__)
+        seq = coll.h
+        J = ix(eng, "J")
+        mark = len(p.pc)
+        alias = ix(eng, "file_at_J")          # an index constant for the file the dict's order puts at position J (instantiation term)
+        p.pc += [0 <= J, J < seq.n, alias == PERM(J)]
+        rs = handlers[name](eng, p, [seq.at(J)], {}, node)
+        if len(rs) != 1 or rs[0][0] is not p:
+            raise Unsupported("forking map function")
+        p.pc[mark:] = [c for c in p.pc[mark:] if not _mentions(c, J)]
+        elt = rs[0][1]
+        out = LSeq(seq.n, lambda j: subst_v(elt, [(J, j)]))
+        out.loop = out.slice_loop = files_loop
+        return [(p, Custom(out))]
+
+    def h_list(eng, p, args, kw, node):
+        if len(args) == 1 and isinstance(args[0], Custom) and hasattr(args[0].h, "as_lseq") and not isinstance(args[0].h, MList):
+            return [(p, Custom(args[0].h.as_lseq(eng, p)))]
+        return BUILTINS["list"](eng, p, args, kw, node)
+
     def h_sum(eng, p, args, kw, node):
         v = args[0]
         if isinstance(v, Custom) and isinstance(v.h, LSeq):
@@ -1031,7 +1072,7 @@ def run_many(funcs, timeout):
     handlers = {"emptylist": h_emptylist, "listcomp": h_listcomp,
                 "dictcomp": h_dictcomp, "all": h_all, "any": h_any, "zip": h_zip14, "api.ParquetFile": h_pf, "analyse_paths": h_analyse,
                 "copy.copy": h_copy, ".join": h_join, "float*": h_floatmul, "int": h_int, "fs.cat": h_cat, "int.from_bytes": h_from_bytes,
-                "max": h_max, "_get_fmd": h_get_fmd, "sum": h_sum}
+                "max": h_max, "_get_fmd": h_get_fmd, "sum": h_sum, "map": h_map, "list": h_list}
     eng = ListEngine(funcs=funcs, handlers=handlers, opaque_calls=False)
     p = Path()
     p.pc += [N >= 1, NCOLS >= 1, BLEN >= 0, OFF(0) == 0]
